@@ -222,6 +222,7 @@ def run(chk):
     impl = run_impl(impl_run, cases, limit=300)
     mres = run_model(2, [to_model(c) for c in cases], nproc=16)
     keys, samples = [], []
+    search = []
     for c, (st, r), m in zip(cases, impl, mres):
         chk.count('d=%d' % c['d']); chk.count('boundary=%s' % c['boundary']); chk.count('fkind=%d' % c['fs'][0])
         chk.count('span=%d' % (c['lmax'] - c['lmin']))
@@ -241,6 +242,7 @@ def run(chk):
                           failing_input=False)
         diffs = compare(c, r, m)
         if diffs and not why:
+            search.append(c)
             chk.violation('corr:C02/' + '+'.join(diffs), 'model-differs', {'observable': ','.join(diffs)}, c,
                           dict(differs=diffs, impl_integral=str(r['integral']), model_integral=str(sx.q(m[4])),
                                impl_vals=str(r['vals'])[:400], model_vals=str([sx.q(x) for x in m[3]])[:400]), failing_input=False)
@@ -250,6 +252,26 @@ def run(chk):
             samples.append(dict(d=c['d'], lmin=c['lmin'], lmax=c['lmax'], boundary=c['boundary'], a=[str(x) for x in c['a']],
                                 b=[str(x) for x in c['b']], f=str(c['fs']), integral=str(r['integral']),
                                 sparse_grid_points=len(r['nodal'] or []), scheme=str(r['scheme'])))
+    # failing-input search: for configurations where only the correspondence broke, look for a hierarchical hat function
+    # (analytic interpolant/integral known) on the SAME configuration on which the implementation violates the property
+    if search:
+        rng = random.Random(chk.seed)
+        extra = []
+        for c in search[:20]:
+            for _ in range(6):
+                j = [rng.randrange(1, c['lmin'] + 1) if rng.random() < 0.5 else rng.randrange(1, c['lmax'] + 1) for _ in range(c['d'])]
+                if not in_index_set(c, j):
+                    j = [c['lmin']] * c['d']
+                i = [rng.randrange(0, 2 ** (jd - 1)) * 2 + 1 for jd in j]
+                extra.append(dict(c, fs=[1, j, i], grid_eval=False))
+        found = 0
+        for c2, (st, r) in zip(extra, run_impl(impl_run, extra, limit=300)):
+            if st == 'ok':
+                why = oracle(c2, r)
+                if why:
+                    found += 1
+                    chk.violation('oracle:std_combi', 'property-predicate', {'boundary': c2['boundary'], 'fkind': 1}, c2, dict(why=why, found_by='failing-input search'))
+        chk.extra['failing_input_search'] = dict(configs=len(search), cases_tried=len(extra), failing_inputs_found=found)
     chk.record_cases(len(cases), keys,
                      'random (d 1..4, 1<=lmin<=lmax<=lmin+3, dyadic box, boundary on/off, f in {polynomial, hierarchical hat, nodal unit}, '
                      '6 dyadic evaluation points, point-wise and tensor-grid requests); non-trivial = d>=2 and lmax>lmin; distinct by all parameters',
